@@ -232,6 +232,133 @@ impl<H: Hist> Check for HistVar<H> {
     }
 }
 
+/// Merges of constant runs whose values are adjacent floating-point numbers: the merged mean
+/// can round a fraction of an ulp outside the two run means, which is where an
+/// algebraically equivalent but unsafe cross term goes negative.  Exhaustive over base values
+/// x run lengths x neighbour distance x both merge directions, plus three-run nestings.
+pub struct RunMerge<T: Chunky<Item = f64>> {
+    pub max_run: usize,
+    pub judge: Judge<T>,
+}
+fn bases() -> Vec<f64> {
+    vec![0.1, 0.3, 1. / 3., 0.7, 1e15 + 3., 1e9 + 0.7, -2.6e-7, 1.1e150, 3e-310]
+}
+fn up(x: f64, k: u32) -> f64 {
+    let mut y = x;
+    for _ in 0..k {
+        y = crate::refmodels::hist::next_up(y);
+    }
+    y
+}
+impl<T: Chunky<Item = f64>> RunMerge<T> {
+    fn eval(&self, runs: &[(f64, usize)], nest_left: bool) -> Result<(T, Vec<f64>), String> {
+        let parts: Vec<T> = runs.iter().map(|(x, n)| T::collect(&vec![*x; *n])).collect();
+        let all: Vec<f64> = runs.iter().flat_map(|(x, n)| vec![*x; *n]).collect();
+        let parts2 = parts.clone();
+        let r = guarded(move || {
+            let mut it = parts2.into_iter();
+            if nest_left {
+                let mut acc = it.next().unwrap();
+                for p in it {
+                    acc.merge_(&p);
+                }
+                acc
+            } else {
+                let v: Vec<T> = it.collect();
+                let mut acc = v.last().unwrap().clone();
+                for p in v[..v.len() - 1].iter().rev() {
+                    let mut q = p.clone();
+                    q.merge_(&acc);
+                    acc = q;
+                }
+                acc
+            }
+        })?;
+        Ok((r, all))
+    }
+    fn cases(&self) -> Vec<(Vec<(f64, usize)>, bool)> {
+        let mut v = Vec::new();
+        for b in bases() {
+            for d in [1u32, 2, 3] {
+                let c = up(b, d);
+                for na in 1..=self.max_run {
+                    for nb in 1..=self.max_run {
+                        v.push((vec![(b, na), (c, nb)], true));
+                        v.push((vec![(c, nb), (b, na)], true));
+                    }
+                }
+                for na in 1..=self.max_run.min(5) {
+                    for nb in 1..=self.max_run.min(5) {
+                        for nc in 1..=self.max_run.min(5) {
+                            for nest in [true, false] {
+                                v.push((vec![(b, na), (c, nb), (b, nc)], nest));
+                                v.push((vec![(b, na), (c, nb), (up(c, d), nc)], nest));
+                            }
+                        }
+                    }
+                }
+            }
+        }
+        v
+    }
+}
+impl<T: Chunky<Item = f64>> Check for RunMerge<T> {
+    fn name(&self) -> String {
+        format!("C17/adjacent-run-merges/{}/runs<={}", T::NAME, self.max_run)
+    }
+    fn run(&self) -> Stats {
+        use rayon::prelude::*;
+        let t0 = std::time::Instant::now();
+        let cases = self.cases();
+        let mut st = Stats { spec: self.name(), depth_requested: self.max_run, depth_completed: self.max_run, ..Default::default() };
+        let res: Vec<Vec<Violation>> = cases
+            .par_iter()
+            .map(|(runs, nest)| match self.eval(runs, *nest) {
+                Err(m) => vec![Violation { sig: format!("{}.merge:panic", T::NAME), detail: m }],
+                Ok((e, all)) => (self.judge)(&all, &e.observe_()),
+            })
+            .collect();
+        let mut found: std::collections::BTreeMap<String, Found> = Default::default();
+        for ((runs, nest), vs) in cases.iter().zip(res) {
+            st.states += 1;
+            st.transitions += runs.len() as u64 * 2 - 1;
+            for v in vs {
+                let sig = format!("{}:adjacent-runs", v.sig);
+                let path = vec![json!({"runs": runs.iter().map(|(x, n)| json!([fshow(*x), n])).collect::<Vec<_>>()}), json!({"left_nested": nest})];
+                let e = found.entry(sig.clone()).or_insert(Found { sig, detail: format!("{} [runs {:?}, left-nested {}]", v.detail.chars().take(300).collect::<String>(), runs, nest), path, count: 0 });
+                e.count += 1;
+            }
+        }
+        st.maximal = st.states;
+        st.nontrivial_states = st.states;
+        st.outcomes = st.states;
+        let (r, n) = &cases[cases.len() / 2];
+        st.samples.push(json!({"spec": self.name(), "history": [{"runs": format!("{r:?}")}, {"left_nested": n}]}));
+        st.found = found.into_values().collect();
+        st.wall_s = t0.elapsed().as_secs_f64();
+        st
+    }
+    fn replay(&self, path: &[Value]) -> Result<Vec<Violation>, String> {
+        let runs: Vec<(f64, usize)> = path
+            .first()
+            .and_then(|v| v.get("runs"))
+            .and_then(|r| r.as_array())
+            .ok_or("no runs")?
+            .iter()
+            .map(|p| Some((fparse(p.get(0)?)?, p.get(1)?.as_u64()? as usize)))
+            .collect::<Option<Vec<_>>>()
+            .ok_or("bad runs")?;
+        let nest = path.get(1).and_then(|v| v.get("left_nested")).and_then(|b| b.as_bool()).unwrap_or(true);
+        match self.eval(&runs, nest) {
+            Err(m) => Ok(vec![Violation { sig: format!("{}.merge:panic", T::NAME), detail: m }]),
+            Ok((e, all)) => Ok((self.judge)(&all, &e.observe_())),
+        }
+    }
+}
+fn runs<T: Chunky<Item = f64>>(max_run: usize) -> Box<dyn Check> {
+    Box::new(RunMerge::<T> { max_run, judge: uni_judge::<T>() })
+}
+
 pub fn plan(tier: Tier) -> Plan {
     let q = tier == Tier::Quick;
     let mut checks: Vec<Box<dyn Check>> = Vec::new();
@@ -251,13 +378,20 @@ pub fn plan(tier: Tier) -> Plan {
         checks.push(add::<WeightedMean>(a, pairs(a), if q { 5 } else { 7 }, weighted_judge::<WeightedMean>()));
         checks.push(trees::<WeightedMean>(a, { let mut p = pairs(a); p.truncate(4); p }, if q { 5 } else { 6 }, weighted_judge::<WeightedMean>()));
     }
+    let mr = if q { 8 } else { 16 };
+    checks.push(runs::<U<Mean>>(mr));
+    checks.push(runs::<U<Variance>>(mr));
+    checks.push(runs::<U<Skewness>>(mr));
+    checks.push(runs::<U<Kurtosis>>(mr));
+    checks.push(runs::<U<Moments4>>(mr));
+    checks.push(runs::<U<M6>>(mr));
     let mt = if q { 6 } else { 9 };
     checks.push(Box::new(HistVar::<H1> { max_total: mt, _h: Default::default() }));
     checks.push(Box::new(HistVar::<H2> { max_total: mt, _h: Default::default() }));
     checks.push(Box::new(HistVar::<H3> { max_total: mt, _h: Default::default() }));
     checks.push(Box::new(HistVar::<H4> { max_total: mt, _h: Default::default() }));
     Plan {
-        rule: "no restriction on kappa: alphabets ill (offset 1e15 x spread), ulp (spread of one ulp), den (subnormals), huge (|x| = 1e150), off11, mixed; every add-sequence up to the depth bound AND every merge tree over every chunking (interval exploration) for Mean, Variance, Skewness, Kurtosis, Moments4, M6, Covariance, WeightedMean(WithError); on every reachable state every variance-type accessor is >= 0 and not NaN whenever defined, every mean lies within the data range ± 8·n·u·max|x|, effective_len lies in [1, len] up to n·2^-50; histograms LEN 1..4: every count vector of total <= 6 (9 thorough), variance(i) and variances() in [0, total/4] ± 4 ulp".into(),
+        rule: "merges of constant runs of ADJACENT floating-point values (nine base values incl. 0.1, 0.3, 1e15+3, 1.1e150, a subnormal; neighbour distance 1..3 ulps; every pair of run lengths up to 8 / 16, both orders, and three-run nestings in both bracketings); AND no restriction on kappa: alphabets ill (offset 1e15 x spread), ulp (spread of one ulp), den (subnormals), huge (|x| = 1e150), off11, mixed; every add-sequence up to the depth bound AND every merge tree over every chunking (interval exploration) for Mean, Variance, Skewness, Kurtosis, Moments4, M6, Covariance, WeightedMean(WithError); on every reachable state every variance-type accessor is >= 0 and not NaN whenever defined, every mean lies within the data range ± 8·n·u·max|x|, effective_len lies in [1, len] up to n·2^-50; histograms LEN 1..4: every count vector of total <= 6 (9 thorough), variance(i) and variances() in [0, total/4] ± 4 ulp".into(),
         assumptions: common_assumptions(),
         checks,
     }
